@@ -46,4 +46,21 @@ def decide (m : Inlined) (target : Nat) : Decision :=
 def convertNodes {ν : Type} (dom : ν → String) (conv : ν → List ν) (nodes : List ν) : List ν :=
   nodes.flatMap fun n => if isDefault (dom n) then conv n else [n]
 
+/-! ## what of `_adapt.py` this model covers (compared with `Generated/AdaptAttrInventory.lean`, tie G) -/
+
+/-- The exits of `adapt_inline` — (kind, returned expression, guarding tests) — one per branch of
+    `decide`: no default-domain node → `keep`; versions differ → `convert`; fall through → `keep`.
+    A further exit (an early `return protos` under some new condition) is a code path `decide`
+    does not have. -/
+def coveredExits : List (String × String × List String) := [("return", "protos", ["not seen_domains & {'', 'ai.onnx'}"]), ("return", "target_nodes", ["source_version != target_version"]), ("return", "protos", [])]
+
+/-- Every function of `_adapt.py` with the (kind, guards) of each of its exits. `adapt_best_effort`
+    dispatches `_Inline` nodes to `adapt_inline` first and leaves nodes of other domains alone
+    (`proto.domain not in ('', 'ai.onnx')` → `None`, i.e. emitted verbatim: C18's custom nodes). -/
+def coveredFunctions : List (String × List (String × List String)) := [
+  ("adapt_node", [("return", ["source_version == target_version"]), ("return", ["<except ValueError>"]), ("return", [])]),
+  ("adapt_inline", [("return", ["not seen_domains & {'', 'ai.onnx'}"]), ("return", ["source_version != target_version"]), ("return", [])]),
+  ("adapt_best_effort", [("return", ["isinstance(node, _Inline)"]), ("return", ["isinstance(node, _InternalNode) or len(protos) != 1"]), ("return", ["any((isinstance(attr, AttrGraph) for attr in node.attrs.get_fields().values()))"]), ("return", ["not version_mismatch"]), ("return", ["proto.domain not in ('', 'ai.onnx')"]), ("return", [])])
+]
+
 end CustomInline
